@@ -153,9 +153,11 @@ func (m *Model) touch(name string) *Repo {
 }
 
 type refs struct {
-	blobs     []string // config + layers
-	manifests []string // index children
-	subject   string
+	blobs      []string // config + layers
+	manifests  []string // index children
+	manifestMT []string // the media type each child descriptor states
+	subject    string
+	subjectMT  string
 	grey      bool // some descriptor is odd (empty media type, zero size with non-empty digest): either outcome
 	badDigest bool // some descriptor has an invalid digest
 	parseErr  bool
@@ -194,6 +196,7 @@ func manifestRefs(mediaType string, data []byte) (r refs, typed bool) {
 		if mf.Subject != nil {
 			look(*mf.Subject, false)
 			r.subject = string(mf.Subject.Digest)
+			r.subjectMT = mf.Subject.MediaType
 		}
 		return r, true
 	case MTIndex:
@@ -205,10 +208,12 @@ func manifestRefs(mediaType string, data []byte) (r refs, typed bool) {
 		for _, c := range ix.Manifests {
 			look(c, true)
 			r.manifests = append(r.manifests, string(c.Digest))
+			r.manifestMT = append(r.manifestMT, c.MediaType)
 		}
 		if ix.Subject != nil {
 			look(*ix.Subject, false)
 			r.subject = string(ix.Subject.Digest)
+			r.subjectMT = ix.Subject.MediaType
 		}
 		return r, true
 	}
@@ -218,30 +223,38 @@ func manifestRefs(mediaType string, data []byte) (r refs, typed bool) {
 // reach returns the digests protected in immutable-tags mode: tagged manifests and,
 // transitively, everything manifests present in the repository reference.
 func (m *Model) reach(r *Repo) map[string]bool {
-	seen := map[string]bool{}
+	seen := map[string]bool{}    // protected digests
+	visited := map[string]bool{} // (digest, stated media type) pairs already expanded
 	var visit func(d, mt string)
 	visit = func(d, mt string) {
-		if seen[d] {
-			return
-		}
 		seen[d] = true
 		mf := r.Manifests[d]
 		if mf == nil {
 			return
 		}
-		// the media type the referrer states (truthful by the generator's construction)
-		rf, typed := manifestRefs(mf.MediaType, mf.Data)
+		// a manifest is read with the media type its referrer states (the tag's descriptor, the
+		// child descriptor in an index, the subject descriptor), not with the one it was last stored
+		// under: re-pushing the same bytes under another media type must not unprotect anything.
+		// Different referrers may state different types: each is followed.
+		if mt == "" {
+			mt = mf.MediaType
+		}
+		if visited[d+"\x00"+mt] {
+			return
+		}
+		visited[d+"\x00"+mt] = true
+		rf, typed := manifestRefs(mt, mf.Data)
 		if !typed || rf.parseErr {
 			return
 		}
 		for _, b := range rf.blobs {
 			seen[b] = true
 		}
-		for _, c := range rf.manifests {
-			visit(c, "")
+		for i, c := range rf.manifests {
+			visit(c, rf.manifestMT[i])
 		}
 		if rf.subject != "" {
-			visit(rf.subject, "")
+			visit(rf.subject, rf.subjectMT)
 		}
 	}
 	for _, td := range r.Tags {
